@@ -37,3 +37,19 @@ PANIC_EXC = {
     ("mani::Manifest::to_edit", "expect(Edit::info)"):
         "check_str rejects only '\\n'; strings come from BufRead::lines() or from edits admitted by check_str",
 }
+
+
+# implicit-bounds audit (C09.4b / C12.4b / C13.4b): {(fn skey, 'index'|'range'): (max unproved sites, why)}
+_BLOCK_CRC = ("block bytes reach Block::new only after crc32c(bytes) matched the index entry (Sst::load_block, rule C09.1) or straight from "
+              "BlockBuilder::seal; the offsets are those of a well-formed block: ")
+BOUNDS_EXC = {
+    ("<sst::block::BlockCursor as sst::Cursor>::value::{closure#0}", "range"): (1, _BLOCK_CRC +
+        "(offset, len) was computed in extract_key from a value slice that lies inside block.bytes"),
+    ("sst::block::Block::restart_point", "index"): (1, _BLOCK_CRC +
+        "restarts_idx + 4 * restart_idx + i with restart_idx < num_restarts (asserted; callers checked by C09.5) addresses the restart table"),
+    ("sst::block::BlockCursor::extract_key", "range"): (1, _BLOCK_CRC +
+        "restarts_boundary = len - capstone - footer is within the block (Block::new)"),
+    ("sst::log::LogIterator::next_frame", "range"): (1,
+        "`&mut self.buffer[buffer_start_sz..]` directly after self.buffer.resize(buffer_start_sz + header.size, 0): the start is the old length, "
+        "which is at most the new length (header.size is bounded by C09.3)"),
+}
